@@ -92,6 +92,13 @@ Theorem C08_lockfree_add_no_lost_update : forall cfg s c, (lfc0 cfg c < WORD)%N 
 Proof. exact lockfree_add_no_lost_update. Qed.
 Print Assumptions C08_lockfree_add_no_lost_update.
 
+(* AtomicValue::max (load + CAS loop): the variable is at least every value handed to a completed
+   max() call *)
+Theorem C08_max_is_max : forall cfg s, reach cfg s ->
+  forall e x v r, In e (hist s) -> e_ret e = Some (OMax x v, r) -> (v <= mxv s x)%N.
+Proof. exact max_is_max. Qed.
+Print Assumptions C08_max_is_max.
+
 (* ---- locks ---- *)
 
 (* a lock - taken by lock/try_lock, as dependency of a task, or in the middle of
